@@ -164,7 +164,9 @@ ENTRY_FORMS = {
     "MemorySink.add": ["dict", "list", "bundle_dict"],
     "MemorySource.load_from_file": ["dict", "bundle_dict"],
     "MemoryStore.load_from_file": ["dict", "bundle_dict"],
-    "FileSystemSource.get": ["file"], "FileSystemSource.all_versions": ["file"], "FileSystemSource.query": ["file"], "FileSystemStore.get": ["file"],
+    # "file_reread": the same stored file was read a moment ago under the other version arguments (by this source and by another one on the same directory)
+    "FileSystemSource.get": ["file", "file_reread"], "FileSystemSource.all_versions": ["file", "file_reread"], "FileSystemSource.query": ["file", "file_reread"],
+    "FileSystemStore.get": ["file", "file_reread"],
     "FileSystemSink.add": ["dict", "json", "list", "nested_list", "list_json", "bundle_dict"],
     "FileSystemStore.add": ["dict", "json", "list", "bundle_dict"],
 }
@@ -213,6 +215,14 @@ def run_entry(entry, form, d, arg, ac, eff, scratch):
         if entry.startswith("FileSystemSource") or entry == "FileSystemStore.get":
             plant(tmp, d)
             src = FileSystemSource(tmp, allow_custom=ac) if entry.startswith("FileSystemSource") else FileSystemStore(tmp, allow_custom=ac)
+            if form == "file_reread":
+                for other in [x for x in (None, "2.0", "2.1") if x != v]:
+                    for s0 in (src if entry.startswith("FileSystemSource") else src.source, FileSystemSource(tmp, allow_custom=ac)):
+                        for rd in (lambda: s0.get(oid, version=other), lambda: s0.all_versions(oid, version=other), lambda: s0.query([Filter("id", "=", oid)], version=other)):
+                            try:
+                                rd()
+                            except Exception:  # noqa  (what the other version makes of the content is judged in its own cell)
+                                pass
             if entry.endswith(".get"):
                 return family(src.get(oid, version=v) if entry.startswith("FileSystemSource") else src.source.get(oid, version=v))
             if entry.endswith(".all_versions"):
